@@ -22,13 +22,16 @@ SELS = {
     "whole": slice(None), "from-50": slice(50, None), "reversed": slice(None, None, -1), "every-2nd": slice(0, None, 2), "every-3rd-reversed": slice(None, None, -3),
     "three-lines": np.array([0, n // 2, n - 1]), "every-7th-array": np.arange(0, n, 7), "mask-odd": (np.arange(n) % 2 == 1), "last-int": n - 1, "empty": slice(0, 0),
     "first-chunk": slice(0, 1), "window": slice(n // 3, n // 3 + 40),
+    # a block-by-block walk (each block starts where the previous one ended, on and off request-group boundaries), evaluated in this order
+    **{f"walk-{a}": slice(a, a + 2) for a in range(0, 12, 2)}, **{f"walk256-{a}": slice(a, min(n, a + 256)) for a in range(0, n, 256)},
     # lines far apart in the file (megabytes of unselected lines between two selected ones of the same request group)
     "every-14th": slice(0, None, 14), "ends": np.array([0, n - 1]), "first-middle-last-reversed": np.array([n - 1, n // 2, 0]), "every-19th-from-3": slice(3, None, 19),
 }
+OPENED = {}
 def work(rpc):
     out = {}
     try:
-        tree = ceos_alos2.open_alos2(spec["dir"], backend_options={"use_cache": False, "records_per_chunk": rpc})
+        tree = OPENED.get(rpc) or ceos_alos2.open_alos2(spec["dir"], backend_options={"use_cache": False, "records_per_chunk": rpc})
         da = tree["imagery/" + spec["group"] + "/data"]
     except BaseException as e:
         return {"open": f"{type(e).__name__}: {str(e)[:160]}"}
@@ -89,12 +92,27 @@ for rpc in spec["rpcs"]:
         box = []
         t = threading.Thread(target=lambda: box.append(work(rpc))); t.start(); t.join()
         res[str(rpc)] = box[0]
+    elif ctx == "atexit":
+        pass
     else:
         res[str(rpc)] = work(rpc)
-json.dump(res, open(sys.argv[2], "w"))
+if ctx == "atexit":
+    # the caller evaluates its selections while the interpreter shuts down (an atexit handler flushing results, an exit-time __del__)
+    import atexit
+    # (the trees are opened while the interpreter is alive: libraries that start helper threads on first use cannot do so any more at exit)
+    for rpc in spec["rpcs"]:
+        OPENED[rpc] = ceos_alos2.open_alos2(spec["dir"], backend_options={"use_cache": False, "records_per_chunk": rpc})
+        twin.isel(rows=slice(0, 1)).values
+    def late():
+        for rpc in spec["rpcs"]:
+            res[str(rpc)] = work(rpc)
+        json.dump(res, open(sys.argv[2], "w"))
+    atexit.register(late)
+else:
+    json.dump(res, open(sys.argv[2], "w"))
 """
 
-CONTEXTS = ["plain", "asyncio", "deep-300", "deep-500", "thread"]
+CONTEXTS = ["plain", "asyncio", "deep-300", "deep-500", "thread", "atexit"]
 N = 1100
 WIDE = (40, 40000)
 
@@ -157,6 +175,6 @@ def run(chk):
             chk.violation(f"index:context:{res['task']['ctx']}:{name}", f"{'%d x %d' % WIDE if res['task'].get('wide') else '%d-line' % N} image, records_per_chunk={rpc}, selection '{name}' made {res['task']['ctx']}: {msg}",
                           {"task": res["task"], "selection": name, "rpc": rpc})
     chk.traces(len(tasks))
-    chk.rule_extra.append(f"calling contexts x many request groups: 16 selections of an {N}-line image (whole, windows, reversed, strided, arrays, mask, int, empty) with "
+    chk.rule_extra.append(f"calling contexts x many request groups: 34 selections (incl. two block-by-block walks) of an {N}-line image (whole, windows, reversed, strided, arrays, mask, int, empty) with "
                           f"records_per_chunk in {rpcs} (up to {N} groups in one selection) made by a fresh interpreter from top-level code, inside a running asyncio loop, "
-                          "300 and 500 frames deep, and from a worker thread; each compared with the in-memory image in the same context")
+                          "300 and 500 frames deep, from a worker thread, and from an atexit handler; each compared with the in-memory image in the same context")
